@@ -1102,11 +1102,19 @@ class TLSConnection(TLSRecordLayer):
         # Get the server version.  Do this before anything else, so any
         # error alerts will use the server's version
         real_version = serverHello.server_version
+        ext = serverHello.getExtension(ExtensionType.supported_versions)
         if serverHello.server_version >= (3, 3):
-            ext = serverHello.getExtension(ExtensionType.supported_versions)
             if ext:
                 real_version = ext.version
         self.version = real_version
+        if ext and serverHello.server_version < (3, 3):
+            # the extension selects TLS 1.3 processing later on, it must
+            # not be combined with an older legacy version
+            for result in self._sendError(
+                    AlertDescription.illegal_parameter,
+                    "supported_versions extension in ServerHello with "
+                    "legacy version {0}".format(serverHello.server_version)):
+                yield result
 
         # Check ServerHello
         if hello_retry and \
@@ -1121,8 +1129,7 @@ class TLSConnection(TLSRecordLayer):
                     "Too old version: {0} (min: {1})"
                     .format(real_version, settings.minVersion)):
                 yield result
-        if real_version > settings.maxVersion and \
-                real_version not in settings.versions:
+        if real_version > settings.maxVersion:
             for result in self._sendError(
                     AlertDescription.protocol_version,
                     "Too new version: {0} (max: {1})"
